@@ -333,7 +333,64 @@ def rule_sibling(ctx):
 # 'accepted by the library's own parser and read back unchanged' needs registry closure and constructor symmetry
 IMPORTS = [('C03', 'C03.REG'), ('C03', 'C03.SYM')]
 
+def rule_meta(ctx):
+    """Every field of an emitted definition/update comes from the source the protocol means: the vector's own
+    name/label/state/perm/rule/timeout, its group's name, its device's name; element fields from the element's
+    definition and the value property (numbers rendered with the element's own format)."""
+    p = ctx.p
+    vec_src = {
+        "device": ("self.device.name",), "name": ("self._definition.name",), "group": ("self._group.name", "self.group.name"),
+        "label": ("self._definition.label",), "state": ("self._state", "self.state_"), "perm": ("self._definition.perm",),
+        "rule": ("self._definition.rule",), "timeout": ("self._definition.timeout",),
+    }
+    n = 0
+    for kind in KINDS:
+        vcls = p.cls(f"{IV}.{kind}Vector")
+        for meth in ("to_def_message", "to_set_message"):
+            f = vcls.find_method(meth)
+            bad = False
+            for pa in run_method(p, f, self_val=Term("param", "self", hint=vcls)):
+                v = pa.value
+                if pa.outcome != "return" or not (isinstance(v, Term) and v.op == "call" and isinstance(v.args[0], Cls)):
+                    continue
+                for k, x in v.args[2]:
+                    if k in vec_src:
+                        n += 1
+                        if show(x) not in vec_src[k]:
+                            ctx.violated("C07.META", f"{f.short}[{kind}Vector]", f"{v.args[0].ci.name}({k}=...) is fed from {show(x)[:50]} instead of {vec_src[k][0]}", fi=f, text=f"{kind}:{meth}:{k}")
+                            bad = True
+                    if k == "timestamp" and "now()" not in show(x):
+                        ctx.violated("C07.META", f"{f.short}[{kind}Vector]", f"timestamp is {show(x)[:40]}, not the current time", fi=f, text=f"{kind}:{meth}:timestamp")
+                        bad = True
+            if not bad:
+                ctx.holds("C07.META", f"{f.short}[{kind}Vector]", "every metadata field comes from the vector's own definition/state/group/device", fi=f)
+    el_src = {"name": "self._definition.name", "label": "self._definition.label", "format": "self._definition.format", "min": "self._definition.min", "max": "self._definition.max", "step": "self._definition.step"}
+    for kind in KINDS:
+        ecls = p.cls(f"{IE}.{kind}")
+        for meth in ("to_def_message", "to_set_message"):
+            f = ecls.find_method(meth)
+            bad = False
+            for pa in run_method(p, f, self_val=Term("param", "self", hint=ecls)):
+                v = pa.value
+                if pa.outcome != "return" or not (isinstance(v, Term) and v.op == "call" and isinstance(v.args[0], Cls)):
+                    continue
+                for k, x in v.args[2]:
+                    if k in el_src and (k in ("name", "label") or kind == "Number"):
+                        n += 1
+                        if show(x) != el_src[k]:
+                            ctx.violated("C07.META", f"{f.short}[{kind}]", f"{v.args[0].ci.name}({k}=...) is fed from {show(x)[:50]} instead of {el_src[k]}", fi=f, text=f"{kind}:{meth}:{k}")
+                            bad = True
+                    if k == "value" and kind == "Number":
+                        if not show(x).startswith("num_to_str(self.value, self._definition.format)"):
+                            ctx.violated("C07.META", f"{f.short}[{kind}]", f"the number is rendered as {show(x)[:60]}, not with the element's own format", fi=f, text=f"Number:{meth}:value-format")
+                            bad = True
+            if not bad:
+                ctx.holds("C07.META", f"{f.short}[{kind}]", "element fields come from the element's definition; numbers rendered with the element's format", fi=f)
+    ctx.floor("C07.META", "metadata fields checked", n, 50)
+
+
 RULES = [
+    ("C07.META", rule_meta, "every emitted field comes from the right source (own definition/state/group/device; element format)"),
     ("C07.BRANCH", rule_branch, "getProperties answered with exactly the requested definitions; send_message drops None"),
     ("C07.DISABLED", rule_disabled, "disabled property -> delProperty / no update; enabled -> exactly its enabled elements"),
     ("C07.EMIT", rule_emit, "emit sites agree with constructor signatures; no required attribute can be None; scalar value"),
